@@ -37,14 +37,20 @@ Definition fresh_state (c : config) : state :=
 Definition fresh_cache (c : config) : cache := new_cache (c_cachesize c).
 
 (* NewVm: page with a default-separator menu; the sizer is attached after the first Reset *)
-Definition new_vm_page (out : N) : page :=
+Definition new_vm_page (out : N) (sep : bytes) : page :=
   let pg := page_with_menu (page_reset new_page) (vm_new_menu []) in
-  if 0 <? out then page_with_sizer pg (new_sizer out) else pg.
+  let pg := if 0 <? out then page_with_sizer pg (new_sizer out) else pg in
+  (* WithMenuSeparator: also applied to the menu NewVm has already built *)
+  match sep with
+  | [] => pg
+  | _ => upd_menu (fun m => mkMenu (m_items m) (m_browse m) (m_page_count m) (m_can_next m) (m_can_prev m)
+                                  (m_sink m) (m_keep m) sep (m_has_rs m)) pg
+  end.
 
 (* a new engine object around a loaded snapshot (persisted operation) or nothing *)
 Definition new_engine (c : config) (snap : option snapshot) (w : list (bytes * N)) (lg : list ev) : engine :=
   let '(s, ca) := match snap with Some sc => sc | None => (fresh_state c, fresh_cache c) end in
-  mkEng (mkVm s ca (new_vm_page (c_out c)) w lg false) false [] false false.
+  mkEng (mkVm s ca (new_vm_page (c_out c) (c_sep c)) w lg false) false [] false false.
 
 (* reset: unwind every level including the entry node, then Restart (which then fails
    silently on the empty path), clear TERMINATE and DIRTY *)
@@ -195,13 +201,26 @@ Definition eng_init (fuel : nat) (rs : rsrc) (c : config) (e : engine) (input : 
       match s with
       | SOk =>
         if negb r then (e4, false, SOk) else
-        let '(e5, cont) :=
-          match s_code (v_st (e_v e4)) with
-          | [] => set_code_eng e4 (encode (IMove (cfg_root c)))
-          | _ => (e4, true)
+        (* no pending code: a stale position (the previous request failed) is unwound first,
+           unless the session is terminated *)
+        let '(e4', s4) :=
+          match s_code (v_st (e_v e4)), s_path (v_st (e_v e4)) with
+          | [], _ :: _ =>
+            if getf (v_st (e_v e4)) FLAG_TERMINATE then (e4, SOk)
+            else let '(v', s') := eng_reset_inner (e_v e4) in (eset_v e4 v', s')
+          | _, _ => (e4, SOk)
           end in
-        let st5 := set_input_raw (v_st (e_v e5)) in_save in
-        (mkEng (vset_st (e_v e5) st5) true (e_exit e5) (e_exiting e5) (e_execd e5), cont, SOk)
+        match s4 with
+        | SOk =>
+          let '(e5, cont) :=
+            match s_code (v_st (e_v e4')) with
+            | [] => set_code_eng e4' (encode (IMove (cfg_root c)))
+            | _ => (e4', true)
+            end in
+          let st5 := set_input_raw (v_st (e_v e5)) in_save in
+          (mkEng (vset_st (e_v e5) st5) true (e_exit e5) (e_exiting e5) (e_execd e5), cont, SOk)
+        | _ => (e4', false, s4)
+        end
       | _ => (e4, false, s)
       end
     end
